@@ -87,10 +87,11 @@ int cmdRun(int argc, char** argv) {
 			for (auto& t : U) ju0.add(relabelName(t));
 			const std::string uRelabelled = ju0.done();
 			// variants: plain load+save; strings of known blocks edited before saving; a copy (constructed / assigned) is saved
-			const char* variants[] = {"plain", "edited", "copied", "assigned", "duplicate-strings", "zero-sized-unknown-only", "shape-order-requested"};
+			const char* variants[] = {"plain", "edited", "copied", "assigned", "duplicate-strings", "zero-sized-unknown-only", "shape-order-requested",
+									  "long-type-name", "forward-only-stream"};
 			const std::string original = bytes;
 			const std::string pristine = readFile(samplePath(c["file"].s));
-			for (int vi = 0; vi < 7; vi++)
+			for (int vi = 0; vi < 9; vi++)
 				for (int def = 0; def < 2; def++) {
 					if (vi >= 2 && ((k + def) % 2)) continue; // copies: alternate the save option to bound the work
 					bytes = original;
@@ -110,9 +111,41 @@ int cmdRun(int argc, char** argv) {
 						j1.add(hh.types[hh.tidx.back()]);
 						uJson = j1.done();
 					}
+					if (vi == 7) {
+						// the first unknown type has a name longer than any the library knows (64, 93 or 200 characters)
+						const std::string was = relabelName(U[0]);
+						std::string needle;
+						uint32_t n = (uint32_t) was.size();
+						needle.append((const char*) &n, 4);
+						needle += was;
+						HeaderInfo hh = parseHeader(bytes);
+						size_t p = bytes.find(needle);
+						if (!hh.ok || p == std::string::npos || p > hh.hdrLen) continue;
+						const size_t lens[] = {64, 93, 200};
+						std::string longName = was + std::string(lens[k % 3] - std::min(lens[k % 3], was.size()), 'x');
+						std::string repl;
+						uint32_t ln = (uint32_t) longName.size();
+						repl.append((const char*) &ln, 4);
+						repl += longName;
+						bytes.replace(p, needle.size(), repl);
+						JArr j7;
+						j7.add(longName);
+						for (size_t q = 1; q < U.size(); q++) j7.add(relabelName(U[q]));
+						uJson = j7.done();
+					}
 					ContentIds ids;
 					NifFile loaded;
-					int rc = loadFromString(loaded, bytes);
+					int rc;
+					if (vi == 8) {
+						// the file arrives through a stream that cannot seek or tell (an archive member being unpacked)
+						struct ForwardOnly : std::streambuf {
+							explicit ForwardOnly(std::string& b) { setg(&b[0], &b[0], &b[0] + b.size()); }
+						} fb(bytes);
+						std::istream is(&fb);
+						rc = loaded.Load(is);
+					}
+					else
+						rc = loadFromString(loaded, bytes);
 					JObj ev;
 					ev.add("e", "unknown").add("file", c["file"].s).raw("U", uJson).add("opt", def ? "default" : "raw").add("variant", variants[vi]).add("load", rc);
 					if (rc == 0) {
